@@ -5,11 +5,11 @@ for P in "$@"; do
   git -C "$VERIF_REPO" diff --quiet || { echo "/repo not clean"; exit 2; }
   git -C "$VERIF_REPO" apply "$P" || { echo "$P: does not apply"; continue; }
   ST=""
-  for t in py2coq cli2coq workers2coq proto2coq buf2coq icfw2coq; do ST="$ST $(/venv/bin/python translator/$t.py coq/Gen | tail -1)"; done
+  for t in $(ls translator/*2coq.py | xargs -n1 basename | sed 's/\.py$//'); do ST="$ST $(/venv/bin/python translator/$t.py coq/Gen | tail -1)"; done
   BAD=$(echo "$ST" | grep -o '"[A-Za-z]*": "unsupported[^"]*"' | tr '\n' ' ')
   MK=$(cd coq && timeout 900 make -j16 -k $(ls Props/*.v | sed 's/\.v$/.vo/') 2>&1 | grep -E "^make.*Error|Error:" | head -5 | tr '\n' ' ')
   echo "$(basename $(dirname $P))/$(basename $(dirname $(dirname $P))) :: unsupported: ${BAD:-none} :: make: ${MK:-ok}"
   git -C "$VERIF_REPO" checkout -- .
 done
-for t in py2coq cli2coq workers2coq proto2coq buf2coq icfw2coq; do /venv/bin/python translator/$t.py coq/Gen >/dev/null; done
+for t in $(ls translator/*2coq.py | xargs -n1 basename | sed 's/\.py$//'); do /venv/bin/python translator/$t.py coq/Gen >/dev/null; done
 (cd coq && make -j16 $(ls Props/*.v | sed 's/\.v$/.vo/') >/dev/null 2>&1)
